@@ -232,16 +232,17 @@ class Array(Node):
         for idx in range(self.rank):
             dim_in_pixels[idx] = dims[idx] is None
         # dim units 
+        # units the caller passed are kept; the others default to
+        # 'pixels' for auto-populated dims and 'unknown' otherwise
+        default_units = ['pixels' if dim_in_pixels[i] else 'unknown' for i in range(self.rank)]
         if dim_units is None:
-            dim_units = ['unknown' for i in range(self.rank)]
+            dim_units = default_units
         else:
             assert(isinstance(dim_units,(list,tuple))), f"dim_units must be None or a list or tuple, not type {type(dim_units)}"
             if len(dim_units) < (self.rank):
-                dim_units = list(dim_units) + ['unknown' for i in range(self.rank-len(dim_units))]
+                dim_units = list(dim_units) + default_units[len(dim_units):]
             else:
                 dim_units = dim_units[:self.rank]
-        dim_units = np.array(dim_units)
-        dim_units[dim_in_pixels] = 'pixels'
         dim_units = tuple(dim_units)
         # dim names
         if dim_names is None:
